@@ -1,5 +1,5 @@
 """C07 — all interfaces to the same computation return the same numbers"""
-from corr import level2_family
+from corr import iface_family, level2_family
 from oracles import c07 as oracle
 
 GEN = ["Ndim"]
@@ -14,6 +14,12 @@ def run(ctx, model_ok):
         st = level2_family.run_stream(ctx, ctx.scale(120, 3000))
         st.pop("samples", None)
         ctx.cov["correspondence"] = st
+        # method_wrappers_agree / observers_as_positions / format_src_flatten_spec / duplicates_are_kept are theorems about
+        # Model/Iface (input formatting + method wrappers): tie it to magpylib.getB/getH, src.getB, sens.getB, coll.getB,
+        # format_src_inputs, check_format_input_observers and check_duplicates by the iface stream (exact)
+        ist = iface_family.run_stream(ctx, ctx.scale(400, 8000))
+        ist.pop("samples", None)
+        ctx.cov["correspondence_iface"] = ist
     else:
         ctx.cov["correspondence"] = "driver did not build"
     budget = 10 if len(ctx.broken) else 1
@@ -26,7 +32,9 @@ def run(ctx, model_ok):
                        "dataframe compared with getX(src, obs); distinct = (case, call form) pairs, every case has a fresh random source")
     ctx.cov["traces_validated_against_impl"] = ost["c07_cases"]
     ctx.cov["samples"] = [ost["c07_forms"]]
-    ctx.cov["not_shown"] = ["method wrappers, _validate_getBH_inputs branches and core functions are delegation glue: cross-interface oracle only",
+    ctx.cov["not_shown"] = ["core functions (magpylib.core.*): cross-interface oracle only; the method wrappers, _validate_getBH_inputs and the input formatting are "
+                            "modelled (Model/Iface.lean, iface stream) for CustomSources — check_dimensions / check_excitations of the built-in classes, "
+                            "in_out, the string-source route of getBH_level2 and numeric arrays whose last axis is not 3 are not in that model",
                             "dataframe: pandas DataFrame construction and column assignment are assumed as modelled (index list next to value list); labels are modelled by entry/sensor index",
                             "the rank of one parameter value is read from a valid instance's attribute by the generator (trusted)"]
     ctx.assumptions += ["np.tile / np.squeeze semantics in getBH_dict_level2 as modelled by DictIface.rows"]
